@@ -16,6 +16,8 @@ use crate::{
 };
 
 pub const DOCS: &[&str] = &["{\"a\":[1,{\"b\":\"x\\ny\"}],\"c\":\"s\"}", "[[1,2],{\"a\":[true,null]},\"t\"]"];
+/// documents whose root needs no payload in the arena (or only a short one)
+pub const SMALL_ROOTS: &[&str] = &["\"\"", "[]", "{}", "\"x\"", "7", "null", "-0.5", "true"];
 
 #[derive(Deserialize)]
 struct Two {
@@ -53,6 +55,11 @@ pub enum Op {
     /// UTF-8 found after the structural parse, 2: string closed only by the padding, 3: trailing
     /// characters): nothing is handed out, so nothing may stay allocated
     ParseRejected(usize),
+    /// whole-input parse of a document with a small root
+    ParseSmall(usize),
+    /// the small roots as elements of a typed `Vec<Value>` / as struct fields
+    SmallRootsInVec,
+    SmallRootsInStruct,
     Drop(usize),
     CloneOnOtherThread(usize),
     DropOnOtherThread(usize),
@@ -64,7 +71,7 @@ const MAX_LIVE: usize = 5;
 
 pub fn ops() -> Vec<Op> {
     use Op::*;
-    let mut v = vec![Parse(0), Parse(1), DeserializeMany, DeserializeWithError, StreamMany, StreamWithError, StructFields, DeserializeManyRaw, StreamManyRaw, StructFieldsRaw, ParseRejected(0), ParseRejected(1), ParseRejected(2), ParseRejected(3)];
+    let mut v = vec![Parse(0), Parse(1), DeserializeMany, DeserializeWithError, StreamMany, StreamWithError, StructFields, DeserializeManyRaw, StreamManyRaw, StructFieldsRaw, ParseRejected(0), ParseRejected(1), ParseRejected(2), ParseRejected(3), ParseSmall(0), ParseSmall(1), ParseSmall(2), ParseSmall(3), ParseSmall(4), SmallRootsInVec, SmallRootsInStruct];
     for i in 0..2 {
         v.push(CloneSub(i, Sel::Root));
         v.push(CloneSub(i, Sel::A));
@@ -303,6 +310,46 @@ pub fn apply(op: &Op, live: &mut Vec<Value>, model: &mut Vec<R>) -> Result<(), S
                 live.push(x);
                 model.push(fence::unarmed(|| model_of(DOCS[1])));
                 model.push(fence::unarmed(|| model_of(DOCS[0])));
+            }
+        }
+        Op::ParseSmall(k) => {
+            if !full {
+                let text = SMALL_ROOTS[*k].to_string();
+                let v: Value = sonic_rs::from_str(&text).map_err(|e| e.to_string())?;
+                drop(text);
+                live.push(v);
+                model.push(fence::unarmed(|| model_of(SMALL_ROOTS[*k])));
+            }
+        }
+        Op::SmallRootsInVec => {
+            if live.len() + 3 <= MAX_LIVE {
+                let text = format!("[{},{},{},{}]", SMALL_ROOTS[0], SMALL_ROOTS[3], SMALL_ROOTS[1], SMALL_ROOTS[4]);
+                let mut vs: Vec<Value> = sonic_rs::from_str(&text).map_err(|e| e.to_string())?;
+                drop(text);
+                if vs.len() != 4 {
+                    return Err("Vec<Value> length".into());
+                }
+                let d = vs.pop().unwrap();
+                if d.as_u64() != Some(7) {
+                    return Err("fourth element is not 7".into());
+                }
+                drop(d);
+                for (k, v) in [0usize, 3, 1].into_iter().zip(vs.into_iter()) {
+                    live.push(v);
+                    model.push(fence::unarmed(|| model_of(SMALL_ROOTS[k])));
+                }
+            }
+        }
+        Op::SmallRootsInStruct => {
+            if live.len() + 2 <= MAX_LIVE {
+                let text = format!("{{\"x\":{},\"y\":{}}}", SMALL_ROOTS[0], SMALL_ROOTS[2]);
+                let t: Two = sonic_rs::from_str(&text).map_err(|e| e.to_string())?;
+                drop(text);
+                let Two { x, y } = t;
+                live.push(y);
+                live.push(x);
+                model.push(fence::unarmed(|| model_of(SMALL_ROOTS[2])));
+                model.push(fence::unarmed(|| model_of(SMALL_ROOTS[0])));
             }
         }
         Op::ParseRejected(k) => {
